@@ -296,6 +296,9 @@ func diffCase(in caseInput, cfgs []config, o diffOpts) diffOut {
 					if st.SquashedStores > 0 {
 						mech = append(mech, "wrong-path-store")
 					}
+					if st.FlushOlderUnexecuted {
+						mech = append(mech, "flush-with-older-unexecuted")
+					}
 					if st.SquashedRegWB > 0 && c.V == "mvp6-2" {
 						// MVP-6.2 keeps one uncommitted value per register: the squashed write replaced an older one
 						mech = append(mech, "wrong-path-transaction-write")
